@@ -173,11 +173,14 @@ def run(prop, tier, seed, replay=None):
 
     def side(r, which, label):
         """model / spec answers that build `label` is compared with"""
-        vals = r.get(which + "-" + label, r[which])
+        key = which + "-" + label if (which + "-" + label) in r else which
         if which == "spec":
             # "MERGED ..." answers are compared by the property's observe() hook, not literally
-            return ["N/A" if v.startswith("MERGED") else v for v in vals]
-        return vals
+            fkey = "filtered:" + key
+            if fkey not in r:
+                r[fkey] = ["N/A" if v.startswith("MERGED") else v for v in r[key]]
+            return r[fkey]
+        return r[key]
 
     def impl_fails_spec(lines):
         r = three_sides(lines)
